@@ -24,6 +24,9 @@ Ev == Trace[l]
 EmitX(rec) == CSVWrite("%1$s", <<ToJson(rec)>>, "emit.ndjson")
 Zeros(n) == [i \in 1..n |-> 0]
 
+\* the SIG value held more than the five fields Sign reads (a header, type covered / labels / original TTL): filed apart
+Preset(e) == IF "preset" \in DOMAIN e /\ e.preset # "" THEN ":preset-sig-struct" ELSE ""
+
 SignKey(e) ==
   LET p == Parse(e.signer) IN
   IF p.st # "ok" \/ ~p.fq \/ ~ValidName(p.labels) THEN "trace/sign-signer-not-a-name"
@@ -40,10 +43,15 @@ SignKey(e) ==
                  signed |-> SignedOctets(e.msg, rsOut), sigoff |-> L + 11 + Len(rs),
                  specout |-> Output(e.msg, rs, Zeros(e.siglen)), specsigned |-> SignedOctets(e.msg, rs),
                  regions |-> Regions(e.msg, rs, e.siglen)])
-       THEN IF ~e.ok THEN "sig0/sign-" \o e.errclass \o (IF e.compress THEN "-compressed" ELSE "")
-            ELSE IF flt # "" THEN (IF e.reused /\ flt = ":signature-length" THEN "sig0/sign-reused-sig-struct" ELSE "sig0/sign-layout" \o flt)
+       THEN IF ~e.ok THEN "sig0/sign-" \o e.errclass \o (IF e.compress THEN "-compressed" ELSE "") \o Preset(e)
+            ELSE IF flt # "" THEN (IF e.reused /\ flt = ":signature-length" THEN "sig0/sign-reused-sig-struct" ELSE "sig0/sign-layout" \o flt \o Preset(e))
             ELSE ""
        ELSE "trace/emit"
+
+\* Verify was called on a SIG value that differs from the record in the message (event field rr): filed apart
+OtherStruct(e, v) ==
+  IF "rr" \in DOMAIN e /\ (e.rr.inc # v.inc \/ e.rr.exp # v.exp \/ e.rr.keytag # v.keytag) THEN ":other-sig-struct" ELSE ""
+RR0 == [inc |-> <<>>, exp |-> <<>>, keytag |-> 0, signer |-> <<>>]
 
 VerifyKey(e) ==
   LET v == View(e.buf)  p == Parse(e.keyowner) IN
@@ -52,15 +60,15 @@ VerifyKey(e) ==
   ELSE IF ~v.ok THEN (IF e.accepted THEN "sig0/verify-accepts-invalid:malformed" ELSE "")
   ELSE IF v.signed # e.signed THEN "trace/verify-signed-octets-differ"       \* sigvalid would be about other octets
   ELSE
-    LET want == e.keyok /\ Accept0(v, p.labels, e.now, e.sigvalid) IN      \* a KEY that is not the signer's key (here: not a key at all) never verifies
+    LET want == e.keyok /\ VerifyOn(IF "rr" \in DOMAIN e THEN e.rr ELSE RR0, e.buf, p.labels, e.now, e.sigvalid) IN      \* a KEY that is not the signer's key (here: not a key at all) never verifies
     IF e.accepted = want THEN ""
-    ELSE IF want THEN (IF v.ar >= 257 THEN "sig0/verify-arcount-high-byte" ELSE "sig0/verify-rejects-valid")
+    ELSE IF want THEN (IF OtherStruct(e, v) = "" /\ v.ar >= 257 THEN "sig0/verify-arcount-high-byte" ELSE "sig0/verify-rejects-valid" \o OtherStruct(e, v))
     ELSE "sig0/verify-accepts-invalid:" \o
          (IF ~e.keyok THEN "malformed-key"
           ELSE IF ~e.sigvalid THEN "signature"
           ELSE IF LowerName(v.signer) # LowerName(p.labels) THEN "signer"
           ELSE IF LexLess(v.exp, v.inc) THEN "inverted-window"
-          ELSE IF ~LE4(v.inc, e.now) THEN "not-yet-valid" ELSE "expired")
+          ELSE IF ~LE4(v.inc, e.now) THEN "not-yet-valid" ELSE "expired") \o OtherStruct(e, v)
 
 Key(e) == CASE e.ev = "sign"   -> SignKey(e)
             [] e.ev = "verify" -> VerifyKey(e)
